@@ -7863,7 +7863,12 @@ bool CallasDonnerhackeFinneyShawThayerRFC4880::HashComputeFile
 		char line[19995]; // constant from GnuPG for maximum chars of a line
 		while (ifs.getline(line, sizeof(line)))
 		{
-			std::string line_str(line);
+			// the line may contain NUL octets: take its length from the stream
+			// (the extracted delimiter is counted, but not stored)
+			size_t line_cnt = ifs.gcount();
+			if (!ifs.eof() && (line_cnt > 0))
+				line_cnt--;
+			std::string line_str(line, line_cnt);
 			size_t line_len = line_str.length();
 			while ((line_len > 0) && (line_str[line_len-1] == '\r'))
 			{
